@@ -376,8 +376,9 @@ class Ctx(object):
                 return False
             kind = ("crash" if why.startswith("CRASH") else
                     "validity" if (why.startswith("result fails validity") or why.startswith("tojson raised")) else
-                    "exception" if why.startswith("not an ordinary exception") else "value")
-            return kind in kinds or why.startswith("harness") or why.startswith("HARNESS")
+                    "exception" if why.startswith("not an ordinary exception") else
+                    "purity" if why.startswith("input modified") else "value")
+            return kind in kinds or (kind == "purity" and "value" in kinds) or why.startswith("harness") or why.startswith("HARNESS")
         self._chain_selftest(name, trs, lambda bad, d: l2chains.validate(bad, d), os.path.join(wd, "selftest"))
         r, summary, rej = l2chains.validate(trs, wd)
         if not summary:
